@@ -266,6 +266,13 @@ DIRECTED: T.Dict[str, T.Dict[str, T.List[str]]] = {
         'env': ['a\\b', '\\', 'a\\', '\\ '],
         'compile': ['a\\b', '\\', 'a\\', '\\\\', '"q\\z"', 'C:\\x\\y', "\\'", 'a\\ b', '\\$x', '\\"'],
     },
+    # leading / trailing blanks and tabs, `=` inside a value, empty values: the `NAME=value` string and list forms of
+    # env: split at the FIRST `=` and must keep the value verbatim
+    'env-whitespace': {
+        'cmd': [' a', 'a ', '\tx\t', '  two  ', '', ' ', '\t', ' = '],
+        'env': [' a', 'a ', '\tx\t', '  two  ', '> ', ' =b ', ' ', ' = x', '\t=', 'a=b ', ''],
+        'compile': [' a', 'a ', '\tx\t', '  two  ', ' '],
+    },
     # what ninja itself interprets
     'ninja-dollar': {
         'cmd': ['$', '$$', '$in', '${out}', '$ ', '$:', ' $', 'a$', '$\n', ':', 'a:b', '$x $y', '|', '||'],
@@ -400,6 +407,52 @@ def build_plan(idx: int, seed: int, tier: str, rsp: bool, newline_pos: T.Optiona
     files['sub/' + sin] = 'sub-in\n'
     D = ('dump',)
 
+    # ---- the spellings of an environment (Reference manual: env accepts a dict, a 'NAME=value' string, a list of such
+    # strings, or an environment() object, whose constructor accepts the same three)
+    ENV_FORMS = ['dict', 'list', 'string', 'ctor_list', 'ctor_string', 'ctor_dict']
+    env_forms_used: T.Dict[str, str] = {}
+
+    def env_form(pos: str, choices: T.Sequence[str] = ENV_FORMS) -> str:
+        k = ALL_POS.index(pos)
+        if force == 'env-whitespace':
+            pool = [c for c in choices if ('string' in c if rsp else 'list' in c)] or list(choices)
+            f = pool[k % len(pool)]
+        else:
+            f = choices[(idx + k) % len(choices)]
+        env_forms_used[pos] = f
+        return f
+
+    def env_expr(env: T.Mapping[str, str], form: str) -> str:
+        pairs = [f'{k_}={v_}' for k_, v_ in env.items()]
+        if 'list' in form:
+            b.calib.extend(pairs)
+            ex_ = mlist(pairs)
+        elif 'string' in form:
+            assert len(pairs) == 1
+            b.calib.extend(pairs)
+            ex_ = mstr(pairs[0])
+        else:
+            ex_ = mdict(env)
+        return f'environment({ex_})' if form.startswith('ctor_') else ex_
+
+    def make_env(pos: str, n: int, allow_newline: bool) -> T.Tuple[T.Dict[str, str], str]:
+        form = env_form(pos)
+        env_ = b.env_vals(pos, 1 if 'string' in form else n, allow_newline)
+        return env_, env_expr(env_, form)
+
+    def make_envobj(var: str, pos: str, method: str, allow_newline: bool) -> T.Dict[str, str]:
+        """environment object: first variable through the constructor (or set()), second through append/prepend"""
+        form = env_form(pos, ['set', 'ctor_list', 'ctor_string', 'ctor_dict'])
+        env_ = b.env_vals(pos, 2, allow_newline)
+        keys_ = list(env_)
+        if form == 'set':
+            L.append(f'{var} = environment()')
+            L.append(f"{var}.set({mstr(keys_[0])}, {mstr(env_[keys_[0]])})")
+        else:
+            L.append(f'{var} = ' + env_expr({keys_[0]: env_[keys_[0]]}, form))
+        L.append(f"{var}.{method}({mstr(keys_[1])}, {mstr(env_[keys_[1]])})")
+        return env_
+
     # ---- compile / link positions
     pa, pab, pae = b.compile_args('proj_args', nargs)
     ga, gab, gae = b.compile_args('glob_args', nargs)
@@ -494,25 +547,21 @@ def build_plan(idx: int, seed: int, tier: str, rsp: bool, newline_pos: T.Optiona
     add_cmd('ct_capfeed', 'ct_capfeed', 'custom_target', body, {}, stdin=files['in1.txt'])
     # ct_env (dict -> `env K=V cmd` unless a newline forces the pickled wrapper)
     h = b.cmd_args('ct_env', nargs)
-    env = b.env_vals('ct_env.env', 2, allow_newline=False)
+    env, envx = make_env('ct_env.env', 2, allow_newline=False)
     body = ['ID:ct_env'] + h + ['--outs', '@OUTPUT@']
-    L.append(f"custom_target('ct_env', output: 'ct_env.out', env: {mdict(env)}, build_by_default: true, command: {mlist([D] + body)})")
+    L.append(f"custom_target('ct_env', output: 'ct_env.out', env: {envx}, build_by_default: true, command: {mlist([D] + body)})")
     add_cmd('ct_env', 'ct_env', 'custom_target', body, {'@OUTPUT@': 'ct_env.out'}, env=env)
     # ct_envobj (environment() with append -> always the pickled wrapper)
     h = b.cmd_args('ct_envobj', nargs)
-    env = b.env_vals('ct_envobj.env', 2, allow_newline=True)
-    keys = list(env)
-    L.append('envo = environment()')
-    L.append(f"envo.set({mstr(keys[0])}, {mstr(env[keys[0]])})")
-    L.append(f"envo.append({mstr(keys[1])}, {mstr(env[keys[1]])})")
+    env = make_envobj('envo', 'ct_envobj.env', 'append', allow_newline=True)
     body = ['ID:ct_envobj'] + h + ['--outs', '@OUTPUT@']
     L.append(f"custom_target('ct_envobj', output: 'ct_envobj.out', env: envo, build_by_default: true, command: {mlist([D] + body)})")
     add_cmd('ct_envobj', 'ct_envobj', 'custom_target', body, {'@OUTPUT@': 'ct_envobj.out'}, env=env)
     # ct_capenv (capture + env: always the pickled wrapper, stdout captured by it)
     h = b.cmd_args('ct_capenv', nargs)
-    env = b.env_vals('ct_capenv.env', 2, allow_newline=True)
+    env, envx = make_env('ct_capenv.env', 2, allow_newline=True)
     body = ['ID:ct_capenv:c'] + h
-    L.append(f"custom_target('ct_capenv', output: 'ct_capenv.out', capture: true, env: {mdict(env)}, build_by_default: true, command: {mlist([D] + body)})")
+    L.append(f"custom_target('ct_capenv', output: 'ct_capenv.out', capture: true, env: {envx}, build_by_default: true, command: {mlist([D] + body)})")
     add_cmd('ct_capenv', 'ct_capenv', 'custom_target', body, {}, env=env)
     # ct_console
     h = b.cmd_args('ct_console', nargs)
@@ -542,9 +591,9 @@ def build_plan(idx: int, seed: int, tier: str, rsp: bool, newline_pos: T.Optiona
     L.append(f"run_target('rt_plain', command: {mlist([D] + body)})")
     add_cmd('rt_plain', 'rt_plain', 'run_target', strs(body), {})
     h = b.cmd_args('rt_env', nargs)
-    env = b.env_vals('rt_env.env', 2, allow_newline=False)
+    env, envx = make_env('rt_env.env', 2, allow_newline=False)
     body = ['ID:rt_env'] + h
-    L.append(f"run_target('rt_env', env: {mdict(env)}, command: {mlist([D] + body)})")
+    L.append(f"run_target('rt_env', env: {envx}, command: {mlist([D] + body)})")
     add_cmd('rt_env', 'rt_env', 'run_target', body, {}, env=env)
 
     # ---- pickled-wrapper collision groups: several commands of ONE program that all go through the pickled wrapper with
@@ -639,10 +688,10 @@ def build_plan(idx: int, seed: int, tier: str, rsp: bool, newline_pos: T.Optiona
     L.append("gsrc2 = gen2.process('gin2.txt')")
     add_cmd('gen_capture', 'gen_capture', 'generator', garg, {'@INPUT@': '../src/gin2.txt'})
     h = b.cmd_args('gen_env', nargs)
-    env = b.env_vals('gen_env.env', 2, allow_newline=False)
+    env, envx = make_env('gen_env.env', 2, allow_newline=False)
     garg = ['ID:gen_env'] + h + ['@INPUT@', '--outs', '@OUTPUT@']
     L.append(f"gen3 = generator(dump, arguments: {mlist(garg)}, output: '@BASENAME@.env.h')")
-    L.append(f"gsrc3 = gen3.process('gin3.txt', env: {mdict(env)})")
+    L.append(f"gsrc3 = gen3.process('gin3.txt', env: {envx})")
     add_cmd('gen_env', 'gen_env', 'generator', garg, {'@INPUT@': '../src/gin3.txt', '@OUTPUT@': 'e2.p/gin3.env.h'}, env=env)
     L.append("e2 = executable('e2', 'main.c', gsrc1, gsrc2, gsrc3)")
 
@@ -652,16 +701,12 @@ def build_plan(idx: int, seed: int, tier: str, rsp: bool, newline_pos: T.Optiona
     L.append(f"test('t_args', dump, args: {mlist(body)})")
     add_cmd('t_args', 't_args', 'test', body, {}, rewrite=False)
     h = b.cmd_args('t_env', 2)
-    env = b.env_vals('t_env.env', 3, allow_newline=True)
+    env, envx = make_env('t_env.env', 3, allow_newline=True)
     body = ['ID:t_env'] + h
-    L.append(f"test('t_env', dump, args: {mlist(body)}, env: {mdict(env)})")
+    L.append(f"test('t_env', dump, args: {mlist(body)}, env: {envx})")
     add_cmd('t_env', 't_env', 'test', body, {}, env=env, rewrite=False)
     h = b.cmd_args('t_envobj', 2)
-    env = b.env_vals('t_envobj.env', 2, allow_newline=True)
-    keys = list(env)
-    L.append('envt = environment()')
-    L.append(f"envt.set({mstr(keys[0])}, {mstr(env[keys[0]])})")
-    L.append(f"envt.prepend({mstr(keys[1])}, {mstr(env[keys[1]])})")
+    env = make_envobj('envt', 't_envobj.env', 'prepend', allow_newline=True)
     body = ['ID:t_envobj'] + h
     L.append(f"test('t_envobj', dump, args: {mlist(body)}, env: envt)")
     add_cmd('t_envobj', 't_envobj', 'test', body, {}, env=env, rewrite=False)
@@ -685,7 +730,7 @@ def build_plan(idx: int, seed: int, tier: str, rsp: bool, newline_pos: T.Optiona
         'files': files,
         'setup_args': ['-Dc_args=' + pylist_literal(oa), '-Dc_link_args=' + pylist_literal(ola)],
         'calib': chunks, 'calibopt': list(oa) + ['<sep>'] + list(ola),
-        'cmd': b.cmd, 'compile': b.compile, 'link': b.link, 'run_targets': run_targets,
+        'cmd': b.cmd, 'compile': b.compile, 'link': b.link, 'run_targets': run_targets, 'env_forms': env_forms_used,
         'strings': b.strings,
     }
 
